@@ -111,6 +111,10 @@ class CircuitWorld(World):
             "cutoff0": r.random() < 0.5,
             "dtype128": r.random() < 0.5,
             "vocab": r.choice(["all", "all", "sparse"]),
+            # a quarter of the runs concentrate on parametrized gates (only
+            # ``Circuit`` with non-contracting gate options accepts them):
+            # direct and named parameter updates between cached queries
+            "params_focus": r.random() < 0.25,
         }
 
     # ------------------------------------------------------------------ setup
@@ -160,6 +164,9 @@ class CircuitWorld(World):
     }
     for _t in TABLES.values():
         _t["sample_now"] = _t["sampler"]
+        _t["named"] = 0.6 * _t["set_params"]
+    TABLES["params"] = dict(gate=6, query=9, sampler=0.5, gen_next=1, copy=1, set_params=4, named=4, new=0.3,
+                            reject=0.2, apply_gates=0.3, sample_now=1.5)
     QUERIES_EXACT = ["to_dense", "amplitude", "partial_trace", "local_expectation", "compute_marginal",
                      "psi_simplified", "rdm_lightcone", "uni", "local_expectation_list"]
     QUERIES_MPS = ["to_dense", "amplitude", "partial_trace", "local_expectation", "compute_marginal",
@@ -184,7 +191,7 @@ class CircuitWorld(World):
             npar = self._nparams(label)
             if npar:
                 g["params"] = [round(r.uniform(-math.pi, math.pi), 4) for _ in range(npar)]
-                if cls in EXACT and r.random() < 0.45:
+                if cls in EXACT and r.random() < (0.8 if self.knobs.get("params_focus") else 0.45):
                     g["parametrize"] = True
         qs = r.sample(range(N), nq)
         g["qubits"] = qs
@@ -208,7 +215,7 @@ class CircuitWorld(World):
         kn = self.knobs
         if not self.circs:
             return self._gen_new(r)
-        table = [(k, w) for k, w in self.TABLES[kn["table"]].items()]
+        table = [(k, w) for k, w in self.TABLES["params" if kn.get("params_focus") else kn["table"]].items()]
         if len(self.circs) >= 3:
             table = [(k, w) for k, w in table if k not in ("new", "copy")]
         k = wchoice(r, table)
@@ -228,13 +235,19 @@ class CircuitWorld(World):
                     "seed": r.randrange(2**31)}
         if k == "copy":
             return {"k": "copy", "circ": ci}
-        if k == "set_params" and cls in EXACT and not any(g.get("parametrize") for g in c["applied"]):
+        if k == "named" and cls not in EXACT:
+            k = "query"
+        if k in ("set_params", "named") and cls in EXACT and not any(g.get("parametrize") for g in c["applied"]):
             lab = pick(r, ["RZ", "RX", "RY", "U3", "RZZ", "FSIM", "CRX", "PHASE"])
             nq = self.G.GATE_SIZE[lab]
             if nq <= N:
                 g = {"label": lab, "nq": nq, "params": [round(r.uniform(-3, 3), 4) for _ in range(self._nparams(lab))],
                      "parametrize": True, "qubits": r.sample(range(N), nq)}
                 return {"k": "gate", "circ": ci, "gate": g, "via": "apply_gate"}
+        if k == "named":
+            return self._gen_named(r, ci, c)
+        if k == "set_params" and cls not in EXACT:
+            k = "query"
         if k == "set_params":
             return {"k": "set_params", "circ": ci, "pick": r.randrange(1 << 16),
                     "params": [round(r.uniform(-3, 3), 4) for _ in range(15)],
@@ -267,9 +280,37 @@ class CircuitWorld(World):
                 op["q"] = "to_dense"
         return op
 
+    def _gen_named(self, r, ci, c):
+        """Named circuit parameters: register names with expressions that
+        drive parametrized gates, or bind new values to registered names."""
+        if c.get("named") and r.random() < 0.7:
+            names = sorted(c["named"])
+            op = {"k": "set_named", "circ": ci,
+                  "values": {n: round(r.uniform(-3, 3), 4) for n in r.sample(names, r.randint(1, len(names)))}}
+            if r.random() < 0.25:
+                op["also_gate"] = {"pick": r.randrange(1 << 16), "params": [round(r.uniform(-3, 3), 4) for _ in range(15)]}
+            return op
+        nn = r.choice([1, 2, 2, 3])
+
+        def form():
+            x = r.random()
+            if x < 0.15:
+                return ["const", round(r.uniform(-3, 3), 4)]
+            if x < 0.3:
+                return ["sum", r.randrange(nn), r.randrange(nn)]
+            return [r.choice(["str", "str", "fn"]), r.randrange(nn), r.choice([1.0, 1.0, -1.0, 2.0, 0.5]),
+                    r.choice([0.0, 0.0, round(r.uniform(-1, 1), 3)])]
+
+        return {"k": "register_named", "circ": ci,
+                "names": {n: round(r.uniform(-3, 3), 4) for n in ["a", "b", "c"][:nn]},
+                "gates": [{"pick": r.randrange(1 << 16), "forms": [form() for _ in range(15)]}
+                          for _ in range(r.choice([1, 1, 2, 3]))]}
+
     def _gen_new(self, r):
         kn = self.knobs
         cls = pick(r, kn["classes"])
+        if kn.get("params_focus"):
+            return {"k": "new", "cls": "Circuit", "contract": r.choice(["auto-split-gate", "auto-split-gate", False, "split-gate"])}
         op = {"k": "new", "cls": cls}
         if cls == "Circuit":
             op["contract"] = r.choice(["auto-split-gate", "auto-split-gate", False, True, "split-gate", "swap-split-gate"])
@@ -484,7 +525,8 @@ class CircuitWorld(World):
             for g in old["gens"]:
                 g["it"].close()
         self.circs.append({"obj": new, "cls": c["cls"], "N": c["N"], "applied": list(c["applied"]), "gens": [],
-                           "contract": c.get("contract"), "compress_every": c.get("compress_every", 2)})
+                           "contract": c.get("contract"), "compress_every": c.get("compress_every", 2),
+                           "named": dict(c.get("named") or {}), "exprs": dict(c.get("exprs") or {})})
         self.stats.fault("fork")
         self.note("copy")
 
@@ -521,6 +563,112 @@ class CircuitWorld(World):
         self.gate_matrix(c["applied"][i])
         self.stats.fault("params_updated")
         self.note("set_params", i)
+
+    # .. named parameters ........................................................
+    @staticmethod
+    def _form_value(f, named):
+        names = sorted(named)
+        nm = lambda j: named[names[j % len(names)]]
+        if f[0] == "const":
+            return float(f[1])
+        if f[0] == "sum":
+            return nm(f[1]) + nm(f[2])
+        return f[2] * nm(f[1]) + f[3]
+
+    @staticmethod
+    def _form_expr(f, named):
+        names = sorted(named)
+        nm = lambda j: names[j % len(names)]
+        if f[0] == "const":
+            return float(f[1])
+        if f[0] == "sum":
+            return f"{nm(f[1])}+{nm(f[2])}"
+        if f[0] == "str":
+            return f"{f[2]!r}*{nm(f[1])}+{f[3]!r}"
+        n, mul, add = nm(f[1]), f[2], f[3]
+        return lambda env: mul * env[n] + add
+
+    def _drop_circ(self, c, why):
+        for g in c["gens"]:
+            g["it"].close()
+        self.circs.remove(c)
+        self.note("dropped", why)
+
+    def _model_apply_named(self, c):
+        for i, forms in c["exprs"].items():
+            g = c["applied"][i]
+            c["applied"][i] = {**g, "params": [self._form_value(f, c["named"]) for f in forms]}
+
+    def _check_params_record(self, c, where):
+        st, got = self.call(lambda: c["obj"].get_params())
+        if st == "rejected":
+            raise Violation("C07/params_record", f"{where}: get_params raised {got!r}")
+        for n, v in c["named"].items():
+            if n not in got or abs(complex(np.asarray(got[n]).reshape(-1)[0]) - v) > 1e-9:
+                raise Violation("C07/params_record", f"{where}: get_params()[{n!r}] = {got.get(n)!r}, bound value {v}")
+        for i, g in enumerate(c["applied"]):
+            if g.get("parametrize") and i not in c["exprs"]:
+                if i not in got:
+                    continue
+                have = np.asarray(got[i], dtype=complex).reshape(-1)
+                if have.size != len(g["params"]) or np.abs(have - np.asarray(g["params"])).max() > 1e-5:
+                    raise Violation("C07/params_record", f"{where}: get_params()[{i}] = {have}, set {g['params']}")
+
+    def _op_register_named(self, op):
+        c = self._circ(op)
+        if c["cls"] not in EXACT:
+            raise Skip()
+        circ = c["obj"]
+        recorded = circ.gates
+        idx = [i for i, g in enumerate(c["applied"]) if g.get("parametrize") and g.get("params")
+               and i < len(recorded) and recorded[i].parametrize]
+        if not idx or not op["names"]:
+            raise Skip()
+        named = {str(n): float(v) for n, v in op["names"].items()}
+        exprs = {}
+        for gs in op["gates"]:
+            i = idx[gs["pick"] % len(idx)]
+            if i not in exprs:
+                exprs[i] = [list(f) for f in gs["forms"][: len(c["applied"][i]["params"])]]
+        lib = {i: tuple(self._form_expr(f, named) for f in forms) for i, forms in exprs.items()}
+        st, res = self.call(lambda: circ.register_named_params(dict(named), lib))
+        if st == "rejected":
+            self._drop_circ(c, "register_named_rejected")
+            return
+        c["named"], c["exprs"] = named, exprs
+        self._model_apply_named(c)
+        self.stats.fault("named_registered")
+        self._check_params_record(c, "register_named_params")
+        self.note("register_named", len(exprs))
+
+    def _op_set_named(self, op):
+        c = self._circ(op)
+        if c["cls"] not in EXACT or not c.get("named"):
+            raise Skip()
+        circ = c["obj"]
+        vals = {n: float(v) for n, v in op["values"].items() if n in c["named"]}
+        if not vals:
+            raise Skip()
+        params = dict(vals)
+        extra = None
+        if op.get("also_gate"):
+            idx = [i for i, g in enumerate(c["applied"]) if g.get("parametrize") and g.get("params") and i not in c["exprs"]]
+            if idx:
+                i = idx[op["also_gate"]["pick"] % len(idx)]
+                extra = (i, list(op["also_gate"]["params"][: len(c["applied"][i]["params"])]))
+                params[i] = np.asarray(extra[1])
+        st, res = self.call(lambda: circ.set_params(params))
+        if st == "rejected":
+            self._drop_circ(c, "set_named_rejected")
+            return
+        c["named"].update(vals)
+        self._model_apply_named(c)
+        if extra:
+            c["applied"][extra[0]] = {**c["applied"][extra[0]], "params": extra[1]}
+        self.stats.fault("named_bound")
+        self.stats.probe("set_named:" + ("mixed" if extra else "names_only"))
+        self._check_params_record(c, "set_params(named)")
+        self.note("set_named", len(vals))
 
     # .. queries ..................................................................
     def _tol(self, c):
